@@ -265,7 +265,8 @@ func run(raw json.RawMessage) driver.Result {
 			}
 			return "(Ok " + textgen.Pval(v) + ")"
 		})
-		return driver.Result{
+		direct = append(direct, fresh("parse.String at "+in.T, str, func() (reflect.Value, error) { return parse.String(str, ty) })...)
+		return driver.Result{Direct: direct,
 			Coq:  fmt.Sprintf("NamedSliceRT %s %s %s %s %s", textgen.Printable(in.L...), term, coqfmt.Strs(in.L), coqfmt.Str(str), out),
 			Kind: "named-slice-roundtrip", Nontrivial: len(in.L) >= 1 && textgen.Special(in.L...),
 			Tags: []string{"named-slice-" + in.T},
@@ -288,7 +289,8 @@ func run(raw json.RawMessage) driver.Result {
 			}
 			return "(Ok " + textgen.Pval(v) + ")"
 		})
-		return driver.Result{
+		direct = append(direct, fresh("parse.String at "+in.T, str, func() (reflect.Value, error) { return parse.String(str, ty) })...)
+		return driver.Result{Direct: direct,
 			Coq:  fmt.Sprintf("NamedMapRT %s %s %s %s %s", textgen.Printable(all...), term, coqfmt.List(parts), coqfmt.Str(str), out),
 			Kind: "named-map-roundtrip", Nontrivial: len(in.M) >= 1 && textgen.Special(all...),
 			Tags: []string{"named-map-" + in.T},
@@ -362,7 +364,18 @@ func run(raw json.RawMessage) driver.Result {
 		}
 	case "isr":
 		out := parseIntSlice(in.Signed, in.W, in.S)
-		return driver.Result{
+		if in.Signed {
+			direct = append(direct, fresh("parse.SignedIntegralSlice[int64]", in.S, func() (reflect.Value, error) {
+				r, err := parse.SignedIntegralSlice[int64](in.S)
+				return reflect.ValueOf(r), err
+			})...)
+		} else {
+			direct = append(direct, fresh("parse.UnsignedIntegralSlice[uint16]", in.S, func() (reflect.Value, error) {
+				r, err := parse.UnsignedIntegralSlice[uint16](in.S)
+				return reflect.ValueOf(r), err
+			})...)
+		}
+		return driver.Result{Direct: direct,
 			Coq:        fmt.Sprintf("IntSliceRaw %s %d %s %s", sg, in.W, coqfmt.Str(in.S), out),
 			Kind:       "int-slice-raw",
 			Nontrivial: strings.HasPrefix(out, "(Ok") && strings.Contains(in.S, ","),
@@ -448,7 +461,8 @@ func run(raw json.RawMessage) driver.Result {
 		if _, ok := m[""]; ok {
 			tags = append(tags, "map-empty-key")
 		}
-		return driver.Result{
+		direct = append(direct, fresh("parse.Map", str, func() (reflect.Value, error) { return parse.Map(str, reflect.TypeOf(map[string]string{})) })...)
+		return driver.Result{Direct: direct,
 			Coq:  fmt.Sprintf("MapRT %s %s %s %s", textgen.Printable(all...), coqfmt.List(parts), coqfmt.Str(str), out),
 			Kind: "map-roundtrip", Nontrivial: len(in.M) >= 2 && textgen.Special(all...), Tags: tags,
 		}
@@ -469,7 +483,10 @@ func run(raw json.RawMessage) driver.Result {
 		}
 		str := flaghelper.NewMapStringStringSliceFlag(&m).String()
 		out := guard(func() string { r, err := parse.StringStringSliceMap(str); return outcome(mssList(r), err) })
-		direct = append(direct, fresh("parse.StringStringSliceMap", str, func() (reflect.Value, error) { r, err := parse.StringStringSliceMap(str); return reflect.ValueOf(r), err })...)
+		direct = append(direct, fresh("parse.StringStringSliceMap", str, func() (reflect.Value, error) {
+			r, err := parse.StringStringSliceMap(str)
+			return reflect.ValueOf(r), err
+		})...)
 		return driver.Result{Direct: direct,
 			Coq:  fmt.Sprintf("MssRT %s %s %s %s", textgen.Printable(all...), coqfmt.List(parts), coqfmt.Str(str), out),
 			Kind: "mss-roundtrip", Nontrivial: len(in.MM) >= 2 && textgen.Special(all...), Tags: tags,
@@ -483,7 +500,8 @@ func run(raw json.RawMessage) driver.Result {
 			}
 			return "(Ok " + textgen.Pval(v) + ")"
 		})
-		return driver.Result{
+		direct = append(direct, fresh("parse.String at "+in.T, in.S, func() (reflect.Value, error) { return parse.String(in.S, t) })...)
+		return driver.Result{Direct: direct,
 			Coq:  fmt.Sprintf("Typed %s %s %s %s", textgen.Printable(in.S), term, coqfmt.Str(in.S), out),
 			Kind: "typed-raw", Nontrivial: strings.HasPrefix(out, "(Ok") && len(in.S) >= 3,
 			Tags: []string{"typed-" + cls(out), "typed-type-" + strings.SplitN(in.T, ":", 2)[0]},
@@ -913,7 +931,7 @@ func main() {
 			"integer slices with blanks before and after the elements through both parse.String at []intN and the integral slice parsers (non-trivial: >=2 elements); " +
 			"durations: nanosecond counts (every unit boundary of Duration.String, int64 edges, random) through Duration.String and back, and duration texts " +
 			"(terms around the int64 edges, all unit spellings, long fractions, malformed) through parse.String at time.Duration (non-trivial: accepted / non-zero); " +
-			"distinct = distinct JSON inputs",
+			"every collection parser call is repeated after the caller modified the first result (direct oracle: same value again); distinct = distinct JSON inputs",
 		Gen: gen, Run: run, Corpus: append(sweep(), floatSweep()...),
 	})
 }
